@@ -18,14 +18,18 @@ as row lists with exactly the queries used:
   plotLogs     = PlotLogs.run_id, insertion order           recentRuns = RecentRuns.run_id, insertion order
   values       = PlotLogEntryValues rows as (index of the PlotLogs row they hang on, tick_time), insertion order
 `restart` = graceful aggregator restart: `Aggregator.shutdown()` (stores every registered engine as recent engine),
-then a new `Aggregator` on the same database (in-memory state dropped).
+then a new `Aggregator` on the same database (in-memory state dropped).  `crash` = the aggregator process dies and is
+started again: no shutdown hook runs, the in-memory state is dropped, the database is what it was.
 
 `Cfg` says whether `create_plot_log` / `store_recent_run` do nothing when a row for the run id already exists (the code
-with fixes/C30-one-record-per-run.diff: both true; the code before it: both false).  The harness measures the two flags
-on the real repositories on every run; the theorems of C28 hold for every `Cfg`.
+with fixes/C30-one-record-per-run.diff: both true; the code before it: both false), whether `run_started` /
+`run_stopped` write the RecentEngines row at once (`persistRunEvents`: the code with fixes/C28-persist-active-run.diff;
+without it the row is written on disconnect and shutdown only), and the `data_log_interval_seconds` the engine
+reports.  The harness measures the flags on the real code on every run and varies the interval.
 
 Abstractions: one engine id; `register` = accepted RegisterEngineMsg followed by the UodInfoMsg the engine always sends
-next (one reading "X", data_log_interval_seconds = 0); a tags message carries one value of tag "X" with an integer
+next (one reading "X", data_log_interval_seconds = `Cfg.interval`); messages of other engines are no-ops here (the
+harness interleaves them and checks that they are); a tags message carries one value of tag "X" with an integer
 tick time and optionally, at the same tick time, a value of the tag "System State" (0 = Stopped, 1 = Running,
 2 = Paused) — the engine's state as the aggregator sees it lags or leads the run messages, so every combination of
 state value and run message order is a history; "System State" is not a reading, so it has no plot-log entry; run log,
@@ -57,6 +61,7 @@ inductive Op where
   | restart
   | start (runId : Nat)                       -- RunStartedMsg
   | stop (runId : Nat)                        -- RunStoppedMsg
+  | crash
   | tags (msgRun : Option Nat) (t : Nat) (st : Option Nat)
       -- TagsUpdatedMsg(run_id = msgRun, tags = [X @ t] or [X @ t, System State = st @ t])
 deriving Repr, DecidableEq
@@ -70,6 +75,8 @@ deriving Repr, DecidableEq
 structure Cfg where
   plotGuarded : Bool := false
   recentGuarded : Bool := false
+  persistRunEvents : Bool := false
+  interval : Nat := 0
 deriving Repr, DecidableEq
 
 def init : State := {}
@@ -87,17 +94,25 @@ System State value received from the engine is; that value only goes into the sy
 def storeRecentEngine (s : State) (m : Mem) : State :=
   { s with recentEngine := some m.run, recentEngineState := m.sysState }
 
+/-- `run_started` / `run_stopped` of the code with fixes/C28-persist-active-run.diff: `store_recent_engine` right away -/
+def persistRow (c : Cfg) (s : State) : State :=
+  if c.persistRunEvents then
+    match s.mem with
+    | some m => storeRecentEngine s m
+    | none => s
+  else s
+
 /-- `_try_restore_reconnected_engine_data` on a fresh `EngineData` -/
 def restored (s : State) : Mem :=
   match s.recentEngine with
   | some (some r) => { run := some r }
   | _ => {}
 
-/-- `latest_tag_tick_time - latest_persisted_tick_time > data_log_interval_seconds` (= 0), or nothing persisted yet -/
-def thresholdExceeded (lastPersisted : Option Nat) (t : Nat) : Bool :=
+/-- `latest_tag_tick_time - latest_persisted_tick_time > data_log_interval_seconds`, or nothing persisted yet -/
+def thresholdExceeded (interval : Nat) (lastPersisted : Option Nat) (t : Nat) : Bool :=
   match lastPersisted with
   | none => true
-  | some lp => decide (lp < t)
+  | some lp => decide (lp + interval < t)
 
 /-- `store_tag_values(engine_id, run_id, [X @ t])`: a row on the first plot-log entry named X of that run id, if any -/
 def valueRows (s : State) (r t : Nat) : List (Nat × Nat) :=
@@ -114,13 +129,13 @@ def latestTime (m : Mem) (t : Nat) : Nat :=
 /-- `_persist_tag_values` (the tag X of `m` is at tick time `t`): when the newest tick time of any tag exceeds the last
 persisted one, the tags newer than the last persisted time are written with that newest tick time; only X has a
 plot-log entry. -/
-def persist (s : State) (m : Mem) (t : Nat) : State :=
+def persist (c : Cfg) (s : State) (m : Mem) (t : Nat) : State :=
   match m.run with
   | none => { s with mem := some m }                             -- no run: nothing stored
   | some r =>
-    if thresholdExceeded m.lastPersisted (latestTime m t) then
+    if thresholdExceeded c.interval m.lastPersisted (latestTime m t) then
       { s with mem := some { m with lastPersisted := some (latestTime m t) },
-               values := s.values ++ (if thresholdExceeded m.lastPersisted t then valueRows s r (latestTime m t) else []) }
+               values := s.values ++ (if thresholdExceeded 0 m.lastPersisted t then valueRows s r (latestTime m t) else []) }
     else { s with mem := some m }
 
 /-- `tags_info.upsert` of the message's tags -/
@@ -130,9 +145,18 @@ def upsertTags (m : Mem) (t : Nat) (st : Option Nat) : Mem :=
   | some v => { m with tagTime := some t, sysState := some v, sysTime := some t }
 
 /-- `tag_values_changed` for one value of tag X (and optionally of System State) at tick time `t` -/
-def tagsChanged (s : State) (m : Mem) (msgRun : Option Nat) (t : Nat) (st : Option Nat) : State :=
+def tagsChanged (c : Cfg) (s : State) (m : Mem) (msgRun : Option Nat) (t : Nat) (st : Option Nat) : State :=
   if (m.run.isNone && msgRun.isSome) || (m.run.isSome && msgRun.isNone) then s   -- "Skipping tag update message"
-  else persist s (upsertTags m t st) t                           -- tags_info.upsert, then _persist_tag_values
+  else persist c s (upsertTags m t st) t                           -- tags_info.upsert, then _persist_tag_values
+
+/-- `run_started` up to (not including) `create_plot_log`: start the run, unless it is the current one already; a
+different current run is stored as recent run first -/
+def startRun (c : Cfg) (s : State) (m : Mem) (r : Nat) : State :=
+  match m.run with
+  | none => { s with mem := some { m with run := some r, lastPersisted := none } }
+  | some q =>
+    if q = r then s                                          -- "be idempotent and just accept this duplicate"
+    else { storeRecentRun c s q with mem := some { m with run := some r, lastPersisted := none } }
 
 def step (c : Cfg) (s : State) : Op → State × Reply
   | .register =>
@@ -147,16 +171,11 @@ def step (c : Cfg) (s : State) : Op → State × Reply
     match s.mem with
     | some m => ({ storeRecentEngine s m with mem := none }, .ok)  -- shutdown() stores it; the new process starts empty
     | none => (s, .ok)
+  | .crash => ({ s with mem := none }, .ok)                         -- nothing is stored
   | .start r =>
     match s.mem with
     | none => (s, .notRegistered)
-    | some m =>
-      let s₁ : State := match m.run with
-        | none => { s with mem := some { m with run := some r, lastPersisted := none } }
-        | some q =>
-          if q = r then s                                          -- "be idempotent and just accept this duplicate"
-          else { storeRecentRun c s q with mem := some { m with run := some r, lastPersisted := none } }
-      (createPlotLog c s₁ r, .ok)
+    | some m => (persistRow c (createPlotLog c (startRun c s m r) r), .ok)   -- (fixed code) the row is written at once
   | .stop _ =>
     match s.mem with
     | none => (s, .notRegistered)
@@ -164,11 +183,11 @@ def step (c : Cfg) (s : State) : Op → State × Reply
       match m.run with
       | none => (s, .ok)                                           -- "No engine run_data available on run_stopped"
       | some q =>                                                  -- matching and mismatching id: store, then reset_run
-        ({ storeRecentRun c s q with mem := some { m with run := none, lastPersisted := none } }, .ok)
+        (persistRow c { storeRecentRun c s q with mem := some { m with run := none, lastPersisted := none } }, .ok)
   | .tags msgRun t st =>
     match s.mem with
     | none => (s, .notRegistered)
-    | some m => (tagsChanged s m msgRun t st, .ok)
+    | some m => (tagsChanged c s m msgRun t st, .ok)
 
 def run (c : Cfg) (s : State) (ops : List Op) : State :=
   ops.foldl (fun s op => (step c s op).1) s
